@@ -347,11 +347,20 @@ class NamespaceClass(Namespace[symtable.Class]):
         elif symbol.is_global():
             return Name(id=name, ctx=Load())
         else:
-            # a class member
-            return Subscript(
-                value=self.class_member_dict_expr,
-                slice=Constant(value=name),
-                ctx=Load(),
+            # a class member; until the class body has bound it, Python
+            # reads the global (or builtin) variable of the same name
+            return IfExp(
+                test=Compare(
+                    left=Constant(value=name),
+                    ops=[In()],
+                    comparators=[self.class_member_dict_expr],
+                ),
+                body=Subscript(
+                    value=self.class_member_dict_expr,
+                    slice=Constant(value=name),
+                    ctx=Load(),
+                ),
+                orelse=self.get_load_declared_global(name),
             )
 
 
